@@ -30,13 +30,18 @@ def dino_configs(tier):
     return out
 
 
-def dino_run(cfg, rng):
-    import torch
+def dino_make(cfg, rng):
     from kappadata.collators.kd_dino_mask_collator import KDDinoMaskCollator
     col = KDDinoMaskCollator(mask_ratio=cfg["ratio"], mask_prob=cfg["prob"], mask_size=cfg["grid"], num_views=cfg["V"],
                              min_num_patches=cfg["min_patches"], dataset_mode="x", return_ctx=True)
     col.set_rng(rng)
-    B, V = cfg["B"], cfg["V"]
+    return col
+
+
+def dino_call(col, cfg, B):
+    """One collate call of batch size B on the (possibly already used) collator; returns (kind, info) like dino_run."""
+    import torch
+    V = cfg["V"]
     if V == 1:
         batch = [(torch.full((2,), float(i)), {"pre": float(i)}) for i in range(B)]
     else:
@@ -64,6 +69,25 @@ def dino_run(cfg, rng):
     if not ok or ctx["pre"].tolist() != [float(i) for i in range(B)]:
         return "batch_not_passed_through", repr(out)
     return None, tuple(counts)
+
+
+def dino_run(cfg, rng):
+    return dino_call(dino_make(cfg, rng), cfg, cfg["B"])
+
+
+BATCH_SEQUENCES = ((4, 2), (2, 4, 1), (3, 1, 3), (4, 4, 3))
+
+
+def dino_sequence(cfg, rng, seq):
+    """The same collator object used for batches of different sizes (e.g. the short last batch of an epoch)."""
+    col = dino_make(cfg, rng)
+    obs = []
+    for k, B in enumerate(seq):
+        kind, info = dino_call(col, cfg, B)
+        if kind:
+            return kind + "|after_other_batch_sizes", f"call {k} of batch sizes {seq}: {info}"
+        obs.append(info)
+    return None, tuple(obs)
 
 
 # ------------------------------------------------------------------------------- I-JEPA
@@ -210,6 +234,25 @@ def ijepa_seeded(cfg, p):
 
 def dino_seeded(cfg, p):
     import numpy as np
+    if cfg["B"] == 2:
+        for seq in BATCH_SEQUENCES:
+            for seed in range(4):
+                p.evaluations += 1
+                kind, info = dino_sequence(cfg, np.random.default_rng(seed), seq)
+                if kind:
+                    p.violation(f"C17:dino:{kind}|views={cfg['V']}", dict(collator="dino", cfg=cfg, seed=seed, seeded=True, seq=list(seq)),
+                                f"{cfg} seed {seed}: {info}")
+                else:
+                    p.observe(("dino_seq", repr(sorted(cfg.items())), seq, info))
+            for ch, res in explore(lambda c: dino_sequence(cfg, ChoiceRng(c, frac=(0.0, 0.5, 1 - 1e-9), int_full=6), seq),
+                                   max_dev=1, cap=60):
+                if ch is None:
+                    break
+                kind, info = res
+                p.evaluations += 1
+                if kind:
+                    p.violation(f"C17:dino:{kind}|views={cfg['V']}", dict(collator="dino", cfg=cfg, choices=ch.choices, seq=list(seq)),
+                                f"{cfg}: {info}")
     for seed in range(16):
         p.evaluations += 1
         kind, info = dino_run(cfg, np.random.default_rng(seed))
@@ -283,7 +326,9 @@ def replay(case):
         (dino_seeded if case["collator"] == "dino" else ijepa_seeded)(cfg, p)
         return None if not p.violations else "; ".join(m for _, m in list(p.violations.values())[:3])
     ch = Chooser(tuple(case["choices"]))
-    if case["collator"] == "dino":
+    if case["collator"] == "dino" and case.get("seq"):
+        kind, info = dino_sequence(cfg, ChoiceRng(ch, frac=(0.0, 0.5, 1 - 1e-9), int_full=6), tuple(case["seq"]))
+    elif case["collator"] == "dino":
         kind, info = dino_run(cfg, ChoiceRng(ch, frac=(0.0, 0.5, 1 - 1e-9), int_full=6))
     else:
         kind, info = ijepa_body(cfg, 2)(ch)
